@@ -17,10 +17,9 @@ pub mod x0 {
       r2(((*v3) + 1), v0, v0) <-- if let Some(v0) = Some(1), r1(v1, v0, v0), r1(v2, 3, v3) if (v0 != 5), if ((*v3) < 6);
       r3(((*v1) + 1), v0) <-- r2(v0, v1, v2), if ((*v1) != 6), if ((*v1) < 6);
       r4(v2, v2, ((*v2) + 1)) <-- for v0 in 2..3, r3(v1, v2), if (v0 != 2), if ((*v2) < 6);
-      r2(v0, v2, v3) <-- r0(v0, v1), r0(v1, v2), r3(v2, v3);
-      r1(v3, ((*v1) + 1), v0) <-- r3(2, v0), r1(v0, v1, v2), r4(v3, v1, v4), if ((*v1) < 6);
-      r4(0, v3, 3) <-- r0(v0, v1) if ((*v1) < 5), r0(v2, v3), r3(0, v0);
-      r4(2, 0, 0) <-- r0(1, 3);
+      r4(v0, v8, v9) <-- if let Some(v9) = Some(0), r0(v0, v1), r0(v1, v9) let v8 = ((*v0) + 1);
+      r2(v1, v0, ((*v0) + 1)) <-- r1(0, 2, v0), r3(v0, v1), if ((*v0) < 6);
+      r1(v0, v0, v1) <-- r1(v0, v1, v2) if ((*v0) != 6);
    }
    pub struct Inst { p: Prog, pool: Option<ascent::rayon::ThreadPool> }
    pub fn make(pool: Option<usize>) -> Box<dyn Driver> {
@@ -65,10 +64,9 @@ pub mod y0 {
       r2(((*v3) + 1), v0, v0) <-- if let Some(v0) = Some(1), r1(v1, v0, v0), r1(v2, 3, v3) if (v0 != 5), if ((*v3) < 6);
       r3(((*v1) + 1), v0) <-- r2(v0, v1, v2), if ((*v1) != 6), if ((*v1) < 6);
       r4(v2, v2, ((*v2) + 1)) <-- for v0 in 2..3, r3(v1, v2), if (v0 != 2), if ((*v2) < 6);
-      r2(v0, v2, v3) <-- r0(v0, v1), r0(v1, v2), r3(v2, v3);
-      r1(v3, ((*v1) + 1), v0) <-- r3(2, v0), r1(v0, v1, v2), r4(v3, v1, v4), if ((*v1) < 6);
-      r4(0, v3, 3) <-- r0(v0, v1) if ((*v1) < 5), r0(v2, v3), r3(0, v0);
-      r4(2, 0, 0) <-- r0(1, 3);
+      r4(v0, v8, v9) <-- if let Some(v9) = Some(0), r0(v0, v1), r0(v1, v9) let v8 = ((*v0) + 1);
+      r2(v1, v0, ((*v0) + 1)) <-- r1(0, 2, v0), r3(v0, v1), if ((*v0) < 6);
+      r1(v0, v0, v1) <-- r1(v0, v1, v2) if ((*v0) != 6);
    }
    pub struct Inst { p: Prog, pool: Option<ascent::rayon::ThreadPool> }
    pub fn make(pool: Option<usize>) -> Box<dyn Driver> {
@@ -107,10 +105,8 @@ pub mod x1 {
       relation r0(i64, i64);
       relation r1(i64);
       relation r2(i64);
-      r2(v0) <-- r0(v0, v1) if ((*v0) < 4), r0(v1, v2) if ((*v2) != (*v1));
-      r2(0) <-- let v0 = 4;
-      r2(3);
-      r2(v0) <-- r2(v0), r1(v1) if ((*v1) != 4);
+      r2(v0) <-- let v9 = 2, r0(v0, v1), r0(v1, v9);
+      r2(1);
    }
    pub struct Inst { p: Prog, pool: Option<ascent::rayon::ThreadPool> }
    pub fn make(pool: Option<usize>) -> Box<dyn Driver> {
@@ -147,10 +143,8 @@ pub mod y1 {
       relation r0(i64, i64);
       relation r1(i64);
       relation r2(i64);
-      r2(v0) <-- r0(v0, v1) if ((*v0) < 4), r0(v1, v2) if ((*v2) != (*v1));
-      r2(0) <-- let v0 = 4;
-      r2(3);
-      r2(v0) <-- r2(v0), r1(v1) if ((*v1) != 4);
+      r2(v0) <-- let v9 = 2, r0(v0, v1), r0(v1, v9);
+      r2(1);
    }
    pub struct Inst { p: Prog, pool: Option<ascent::rayon::ThreadPool> }
    pub fn make(pool: Option<usize>) -> Box<dyn Driver> {
@@ -192,10 +186,11 @@ pub mod x2 {
       relation r5(i64, i64);
       r3(v1, v1) <-- r0(v0, v1) if ((*v0) != 6) let v2 = ((*v1) + 1), if let Some(v3) = Some((*v1));
       r3(v3, ((*v3) + 1)) <-- r3(v0, v1), r0(v2, v3), if ((*v3) < 6);
-      r1(v0, v1) <-- r1(v0, v1), r4(((*v0) + 1), v2);
-      r1(v0, v8) <-- if let Some(v9) = Some(2), r4(v0, v1), r1(v1, v9) let v8 = ((*v0) + 1);
-      r4(v0, v0) <-- let v0 = 2, r0((v0 + 1), v0) if (v0 < 4) let v1 = (v0 + 1);
-      r3(v1, v0) <-- r1(v0, v1) if ((*v0) < 6);
+      r1(v0, v1) <-- let v9 = 1, r1(v0, v1), r4(v1, v9);
+      r2(v0) <-- for v9 in 0..2, r4(v0, v1), r1(v9, v1);
+      r3(v0, v0) <-- r3(3, v0), if ((*v0) == 0), r1(v0, 0), r3(v0, v0), for v1 in 2..1;
+      r2(v0) <-- r1(2, v0), r2(((*v0) + 1)) if ((*v0) < 6);
+      r1(v1, 3) <-- r1(v0, v1);
    }
    pub struct Inst { p: Prog, pool: Option<ascent::rayon::ThreadPool> }
    pub fn make(pool: Option<usize>) -> Box<dyn Driver> {
@@ -240,10 +235,11 @@ pub mod y2 {
       relation r5(i64, i64);
       r3(v1, v1) <-- r0(v0, v1) if ((*v0) != 6) let v2 = ((*v1) + 1), if let Some(v3) = Some((*v1));
       r3(v3, ((*v3) + 1)) <-- r3(v0, v1), r0(v2, v3), if ((*v3) < 6);
-      r1(v0, v1) <-- r1(v0, v1), r4(((*v0) + 1), v2);
-      r1(v0, v8) <-- if let Some(v9) = Some(2), r4(v0, v1), r1(v1, v9) let v8 = ((*v0) + 1);
-      r4(v0, v0) <-- let v0 = 2, r0((v0 + 1), v0) if (v0 < 4) let v1 = (v0 + 1);
-      r3(v1, v0) <-- r1(v0, v1) if ((*v0) < 6);
+      r1(v0, v1) <-- let v9 = 1, r1(v0, v1), r4(v1, v9);
+      r2(v0) <-- for v9 in 0..2, r4(v0, v1), r1(v9, v1);
+      r3(v0, v0) <-- r3(3, v0), if ((*v0) == 0), r1(v0, 0), r3(v0, v0), for v1 in 2..1;
+      r2(v0) <-- r1(2, v0), r2(((*v0) + 1)) if ((*v0) < 6);
+      r1(v1, 3) <-- r1(v0, v1);
    }
    pub struct Inst { p: Prog, pool: Option<ascent::rayon::ThreadPool> }
    pub fn make(pool: Option<usize>) -> Box<dyn Driver> {
@@ -288,9 +284,10 @@ pub mod x3 {
       relation r5(i64, i64);
       r4(v1, 0) <-- r1(v0, v1);
       r4((v0 + 1), v1) <-- if let Some(v0) = Some(3), r4(v1, v0) if (v0 <= 1) let v2 = ((*v1) + 0), if (v0 <= 6), r4(((*v1) + 0), v2), if (v0 < 6);
-      r4(v0, v2) <-- r1(v0, v1), r4(v1, v2), r1(v2, v3);
-      r2(v0, 0) <-- r2(v0, 1) if ((*v0) <= 3), let v1 = (*v0), r0((v1 + 0), v1) if (v1 != 6), r4((v1 + 0), 3) if ((*v0) <= 3);
-      r2(v1, v0) <-- r2(v0, v1) if ((*v1) != 5);
+      r3(v0) <-- if let Some(v9) = Some(0), r1(v0, v1), r4(v1, v9) let v8 = ((*v0) + 1);
+      r5(((*v0) + 1), ((*v0) + 1)) <-- r2(v0, v1) if ((*v1) < 4), if ((*v0) < 6), if ((*v0) < 6);
+      r0(v1, 2) <-- let v0 = 2, r3(v1), for v2 in 0..1, r3(3) if ((*v1) <= 3), r0(v3, v2) if (v2 <= 5);
+      r2(v2, ((*v0) + 1)) <-- r2(2, v0) if ((*v0) <= 3), r0(v1, v0), r1(v0, v2), if ((*v0) < 6);
    }
    pub struct Inst { p: Prog, pool: Option<ascent::rayon::ThreadPool> }
    pub fn make(pool: Option<usize>) -> Box<dyn Driver> {
@@ -335,9 +332,10 @@ pub mod y3 {
       relation r5(i64, i64);
       r4(v1, 0) <-- r1(v0, v1);
       r4((v0 + 1), v1) <-- if let Some(v0) = Some(3), r4(v1, v0) if (v0 <= 1) let v2 = ((*v1) + 0), if (v0 <= 6), r4(((*v1) + 0), v2), if (v0 < 6);
-      r4(v0, v2) <-- r1(v0, v1), r4(v1, v2), r1(v2, v3);
-      r2(v0, 0) <-- r2(v0, 1) if ((*v0) <= 3), let v1 = (*v0), r0((v1 + 0), v1) if (v1 != 6), r4((v1 + 0), 3) if ((*v0) <= 3);
-      r2(v1, v0) <-- r2(v0, v1) if ((*v1) != 5);
+      r3(v0) <-- if let Some(v9) = Some(0), r1(v0, v1), r4(v1, v9) let v8 = ((*v0) + 1);
+      r5(((*v0) + 1), ((*v0) + 1)) <-- r2(v0, v1) if ((*v1) < 4), if ((*v0) < 6), if ((*v0) < 6);
+      r0(v1, 2) <-- let v0 = 2, r3(v1), for v2 in 0..1, r3(3) if ((*v1) <= 3), r0(v3, v2) if (v2 <= 5);
+      r2(v2, ((*v0) + 1)) <-- r2(2, v0) if ((*v0) <= 3), r0(v1, v0), r1(v0, v2), if ((*v0) < 6);
    }
    pub struct Inst { p: Prog, pool: Option<ascent::rayon::ThreadPool> }
    pub fn make(pool: Option<usize>) -> Box<dyn Driver> {
@@ -378,7 +376,7 @@ pub mod x4 {
       relation r1(i64, i64);
       relation r2(i64, i64);
       r1(v0, v1) <-- r1(v0, v1) if ((*v0) < 2), r0(v1, v2) if ((*v2) != (*v1));
-      r1(v0, v1) <-- let v9 = 2, r0(v0, v1), r2(v1, v9);
+      r1(v0, v1) <-- r0(v0, v1), r2(((*v0) + 1), v2);
       r1(0, v0) <-- r0(v0, v1) if ((*v0) <= 4), r0(v2, v0), if ((*v1) == 1);
       r2(v1, ((*v1) + 1)) <-- r0(v0, 3), r2(v1, v2), if ((*v1) < 6);
       r1(v1, v1) <-- if let Some(v0) = Some(3), r1((v0 + 0), v1) if ((*v1) < 5) let v2 = ((*v1) + 1);
@@ -419,7 +417,7 @@ pub mod y4 {
       relation r1(i64, i64);
       relation r2(i64, i64);
       r1(v0, v1) <-- r1(v0, v1) if ((*v0) < 2), r0(v1, v2) if ((*v2) != (*v1));
-      r1(v0, v1) <-- let v9 = 2, r0(v0, v1), r2(v1, v9);
+      r1(v0, v1) <-- r0(v0, v1), r2(((*v0) + 1), v2);
       r1(0, v0) <-- r0(v0, v1) if ((*v0) <= 4), r0(v2, v0), if ((*v1) == 1);
       r2(v1, ((*v1) + 1)) <-- r0(v0, 3), r2(v1, v2), if ((*v1) < 6);
       r1(v1, v1) <-- if let Some(v0) = Some(3), r1((v0 + 0), v1) if ((*v1) < 5) let v2 = ((*v1) + 1);
@@ -460,9 +458,11 @@ pub mod x5 {
       relation r1(i64, i64);
       relation r2(i64);
       r2(v3) <-- if let Some(v0) = Some(0), r1(v1, v0), if ((*v1) <= 5), r0(v2, v3, v4);
-      r2(v0) <-- for v9 in 0..4, r1(v0, v1), r1(v9, v1);
-      r2(v0) <-- r1(v0, v1) if ((*v0) < 4), r1(v1, v2) if ((*v2) != (*v1));
-      r2(v1) <-- let v0 = 0, r0(v1, v2, v3);
+      r2(v0) <-- if let Some(v9) = Some(0), r1(v0, v1), r1(v1, v9) let v8 = ((*v0) + 1);
+      r2(v0) <-- r1(v0, v1), r1(v0, v0), r1(v1, v2);
+      r2(v0) <-- if let Some(v0) = None::<i64>;
+      r2(v0) <-- if let Some(v0) = Some(2);
+      r2(3) <-- r2(3);
    }
    pub struct Inst { p: Prog, pool: Option<ascent::rayon::ThreadPool> }
    pub fn make(pool: Option<usize>) -> Box<dyn Driver> {
@@ -500,9 +500,11 @@ pub mod y5 {
       relation r1(i64, i64);
       relation r2(i64);
       r2(v3) <-- if let Some(v0) = Some(0), r1(v1, v0), if ((*v1) <= 5), r0(v2, v3, v4);
-      r2(v0) <-- for v9 in 0..4, r1(v0, v1), r1(v9, v1);
-      r2(v0) <-- r1(v0, v1) if ((*v0) < 4), r1(v1, v2) if ((*v2) != (*v1));
-      r2(v1) <-- let v0 = 0, r0(v1, v2, v3);
+      r2(v0) <-- if let Some(v9) = Some(0), r1(v0, v1), r1(v1, v9) let v8 = ((*v0) + 1);
+      r2(v0) <-- r1(v0, v1), r1(v0, v0), r1(v1, v2);
+      r2(v0) <-- if let Some(v0) = None::<i64>;
+      r2(v0) <-- if let Some(v0) = Some(2);
+      r2(3) <-- r2(3);
    }
    pub struct Inst { p: Prog, pool: Option<ascent::rayon::ThreadPool> }
    pub fn make(pool: Option<usize>) -> Box<dyn Driver> {
@@ -528,6 +530,42 @@ pub mod y5 {
    }
 }
 
+#[allow(unused, non_snake_case, clippy::all)]
+pub mod ystress {
+   use ascent::*;
+   use ascent::aggregators::*;
+   use ascent::lattice::{Dual, set::Set};
+   use crate::common::*;
+   ascent_par! {
+      pub struct Prog;
+      relation r0(i64, i64);
+      relation r1(i64, i64);
+      r0(v0, ((*v1) + 1)) <-- r0(v0, v1), if ((*v1) < 4);
+      r1(v0, v1) <-- r0(v0, v1);
+   }
+   pub struct Inst { p: Prog, pool: Option<ascent::rayon::ThreadPool> }
+   pub fn make(pool: Option<usize>) -> Box<dyn Driver> {
+      let pool = pool.map(|n| ascent::rayon::ThreadPoolBuilder::new().num_threads(n).build().unwrap());
+      let p = match &pool { Some(pl) => pl.install(|| Default::default()), None => Default::default() };
+      Box::new(Inst { p, pool })
+   }
+   impl Driver for Inst {
+      fn load(&mut self, rel: usize, rows: &[Sexp], append: bool) -> Option<()> {
+         match rel {
+         0 => { let v: Vec<(i64,i64,)> = parse_rows(rows)?; if !append { self.p.r0 = Default::default(); } for x in v { self.p.r0.push(x); } },
+         1 => { let v: Vec<(i64,i64,)> = parse_rows(rows)?; if !append { self.p.r1 = Default::default(); } for x in v { self.p.r1.push(x); } },
+            _ => return None,
+         }
+         Some(())
+      }
+      fn run(&mut self) { match &self.pool { Some(pl) => { let p = &mut self.p; pl.install(|| p.run()) }, None => self.p.run() } }
+      fn run_here(&mut self) { self.p.run() }
+      fn run_timeout(&mut self, k: usize) -> Option<bool> { let _ = k; None }
+      fn dump(&self) -> String { vec![dump_rel(0, self.p.r0.iter().map(|x| x.render()).collect()), dump_rel(1, self.p.r1.iter().map(|x| x.render()).collect())].join(" | ") }
+      fn iters(&self) -> String { format!("iters {}", self.p.scc_iters.iter().map(|x| x.to_string()).collect::<Vec<_>>().join(" ")) }
+   }
+}
+
 fn main() {
-   common::main_loop(&[("x0", x0::make as common::Factory), ("y0", y0::make as common::Factory), ("x1", x1::make as common::Factory), ("y1", y1::make as common::Factory), ("x2", x2::make as common::Factory), ("y2", y2::make as common::Factory), ("x3", x3::make as common::Factory), ("y3", y3::make as common::Factory), ("x4", x4::make as common::Factory), ("y4", y4::make as common::Factory), ("x5", x5::make as common::Factory), ("y5", y5::make as common::Factory)]);
+   common::main_loop(&[("x0", x0::make as common::Factory), ("y0", y0::make as common::Factory), ("x1", x1::make as common::Factory), ("y1", y1::make as common::Factory), ("x2", x2::make as common::Factory), ("y2", y2::make as common::Factory), ("x3", x3::make as common::Factory), ("y3", y3::make as common::Factory), ("x4", x4::make as common::Factory), ("y4", y4::make as common::Factory), ("x5", x5::make as common::Factory), ("y5", y5::make as common::Factory), ("ystress", ystress::make as common::Factory)]);
 }
